@@ -172,3 +172,88 @@ def real_table_classifier(table, n_classes=2, validate=False):
     m = TableClassifier(table=table, n_classes=n_classes, classes=list(range(n_classes)), validate=validate)
     CREATED.append(m)
     return m
+
+
+# --------------------------------------------------------------------------
+# class-frequency estimators (the real ClassFrequencyEstimator.predict_proba runs on stubbed frequencies)
+# --------------------------------------------------------------------------
+def make_stub_freq_classifier():
+    from skactiveml.base import ClassFrequencyEstimator
+    from skactiveml.utils import MISSING_LABEL
+
+    class StubFreqClassifier(ClassFrequencyEstimator):
+        """contract: predict_freq returns non-negative class frequencies (a row may be all zero: no kernel mass); the
+        fitted model is a function of the training data; predict_proba / predict are the real base-class code"""
+
+        def __init__(self, classes=None, missing_label=MISSING_LABEL, cost_matrix=None, class_prior=0.0, random_state=None,
+                     n_classes=2, gen=0):
+            super().__init__(classes=classes, missing_label=missing_label, cost_matrix=cost_matrix, class_prior=class_prior,
+                             random_state=random_state)
+            self.n_classes = n_classes
+            self.gen = gen
+
+        def fit(self, X, y, sample_weight=None):
+            X, y, sample_weight = self._validate_data(X, y, sample_weight)
+            self.gen_ = _train_key(self.gen, X, y, sample_weight)
+            return self
+
+        def predict_freq(self, X):
+            X = asnd(X)
+            gen = getattr(self, "gen_", self.gen)
+            f = _fn("clfF", X.shape[1])
+            c = core.ctx()
+            rx = raw(X)
+            out = np.empty((X.shape[0], self.n_classes), dtype=object)
+            for i in range(X.shape[0]):
+                args = _row_terms(list(rx[i]))
+                fs = [f(z3.IntVal(gen), z3.IntVal(k), *args) for k in range(self.n_classes)]
+                key = ("clfF", fs[0].get_id())
+                if key not in c.uf_axioms_done:
+                    c.uf_axioms_done.add(key)
+                    c.add(z3.And(*[t >= 0 for t in fs]))
+                for k, t in enumerate(fs):
+                    out[i, k] = core.SymFloat(t)
+                if not hasattr(c, "inputs"):
+                    c.inputs = {}
+                c.inputs.setdefault("__freq__", []).append([gen, list(rx[i]), [core.SymFloat(t) for t in fs]])
+            return arrays._wrap(out, arrays.FLOAT)
+    return StubFreqClassifier
+
+
+def StubFreqClassifier(**kw):
+    if "freq" not in _CACHE:
+        _CACHE["freq"] = make_stub_freq_classifier()
+    m = _CACHE["freq"](**kw)
+    CREATED.append(m)
+    return m
+
+
+def real_table_freq_classifier(table, n_classes=2):
+    """concrete replay: frequencies looked up by row (unknown rows: zero frequencies)"""
+    from skactiveml.base import ClassFrequencyEstimator
+    from skactiveml.utils import MISSING_LABEL
+
+    class TableFreq(ClassFrequencyEstimator):
+        def __init__(self, classes=None, missing_label=MISSING_LABEL, cost_matrix=None, class_prior=0.0, random_state=None,
+                     table=None, n_classes=2):
+            super().__init__(classes=classes, missing_label=missing_label, cost_matrix=cost_matrix, class_prior=class_prior,
+                             random_state=random_state)
+            self.table = table
+            self.n_classes = n_classes
+
+        def fit(self, X, y, sample_weight=None):
+            self._validate_data(X, y, sample_weight)
+            self.fit_count_ = getattr(self, "fit_count_", 0) + 1
+            return self
+
+        def predict_freq(self, X):
+            X = np.asarray(X, dtype=float)
+            out = np.zeros((len(X), self.n_classes))
+            for i, r in enumerate(X):
+                for row, fr in self.table or []:
+                    if np.array_equal(np.asarray(row, dtype=float), r):
+                        out[i] = fr
+            return out
+    m = TableFreq(table=table, n_classes=n_classes, classes=list(range(n_classes)))
+    CREATED.append(m)
+    return m
